@@ -8,6 +8,7 @@ _md = canon._md
 
 
 def facts(text):
+    """(L, B, I): line facts, block facts, inline facts"""
     lines = text.split("\n")
     toks = _md.parse(text)
     n = len(lines)
@@ -18,19 +19,38 @@ def facts(text):
     fenceline = [False] * (n + 2)
     inlist = [False] * (n + 2)
     B = []
+    I = []
     depth = 0
     plain = [False] * (n + 2)
+    para = [False] * (n + 2)
+    pmarkup = [False] * (n + 2)
+    cstack = []                      # open containers: [kind, block record or None]
     for ti, t in enumerate(toks):
         if t.type.endswith("_open") and t.type in ("blockquote_open", "bullet_list_open", "ordered_list_open", "list_item_open"):
             depth += 1
             if t.type != "list_item_open" and t.map:
                 k = {"blockquote_open": "bq", "bullet_list_open": "ul", "ordered_list_open": "ol"}[t.type]
-                B.append(_b(k, t.map, marker=t.markup or "", depth=depth))
+                for c in cstack:
+                    if c[1] is not None:
+                        c[1]["nested"] = True
+                rec = _b(k, t.map, marker=t.markup or "", depth=depth)
+                B.append(rec)
+                cstack.append([k, rec, 0])
                 if k != "bq":
                     for i in range(t.map[0], min(t.map[1] + 1, n)):
                         inlist[i + 1] = True
+            elif t.type == "list_item_open":
+                owner = cstack[-1] if cstack else None
+                cstack.append(["li", None, 0])
+                if owner is not None and owner[0] == "ul" and t.map:
+                    owner[2] += 1
+                    uls = [c for c in cstack if c[0] == "ul"]
+                    B.append(_b("li", t.map, marker=t.markup or "", level=len(uls), first=owner[2] == 1,
+                                mixed=any(c[0] in ("ol", "bq") for c in cstack), depth=depth))
         elif t.type.endswith("_close") and t.type in ("blockquote_close", "bullet_list_close", "ordered_list_close", "list_item_close"):
             depth -= 1
+            if cstack:
+                cstack.pop()
         elif t.type == "heading_open" and t.map:
             s, e = t.map
             raw = lines[s]
@@ -67,7 +87,7 @@ def facts(text):
             fenceline[s + 1] = True
             if e - 1 > s and re.match(r"^[ >\t]*(```+|~~~+)\s*$", lines[e - 1] if e - 1 < n else ""):
                 fenceline[e] = True
-            B.append(_b("fence", t.map, style=t.markup[:1], info=t.info.strip(), depth=depth))
+            B.append(_b("fence", t.map, style=t.markup[:1], info=t.info.strip(), depth=depth, closed=bool(fenceline[e]) and e - 1 > s))
         elif t.type == "code_block" and t.map:
             s, e = t.map
             for i in range(s, e):
@@ -82,22 +102,54 @@ def facts(text):
             B.append(_b("html", t.map, depth=depth))
         elif t.type == "paragraph_open" and t.map:
             B.append(_b("p", t.map, depth=depth))
+            inl = toks[ti + 1] if ti + 1 < len(toks) and toks[ti + 1].type == "inline" else None
+            mk = bool(inl is not None and any(c.type not in ("text", "softbreak") for c in (inl.children or [])))
+            for i in range(t.map[0], t.map[1]):
+                para[i + 1] = True
+                pmarkup[i + 1] = mk or (depth > 0 and i > t.map[0])      # continuation lines inside containers: indentation is relative
             if depth == 0:
                 for i in range(t.map[0], t.map[1]):
                     plain[i + 1] = True
+        if t.type == "inline" and t.map:
+            ln = t.map[0] + 1
+            first_i = len(I)
+            for c in t.children or []:
+                if c.type in ("softbreak", "hardbreak"):
+                    ln += 1
+                elif c.type == "link_open":
+                    I.append({"k": "link", "ln": ln, "href": (c.attrGet("href") or "").strip(), "alt": "", "sure": True, "lo": t.map[0] + 1, "hi": t.map[1]})
+                elif c.type == "image":
+                    I.append({"k": "image", "ln": ln, "href": (c.attrGet("src") or "").strip(), "alt": (c.content or "").strip(), "sure": True, "lo": t.map[0] + 1, "hi": t.map[1]})
+                    ln += (c.content or "").count("\n")
+                elif c.type in ("text", "code_inline", "html_inline"):
+                    ln += (c.content or "").count("\n")
+            if ln != t.map[0] + 1 + (t.content or "").count("\n"):
+                for rec in I[first_i:]:                # line breaks inside code spans / destinations / titles: the count is unreliable
+                    rec["sure"] = False
     L = []
     for i, l in enumerate(lines, 1):
         trail = len(l) - len(l.rstrip(" "))
+        body = _strip_containers(l) if para[i] else l
+        m18 = re.match(r"^ {0,3}(#+)(.?)", body)
+        hashes = len(m18.group(1)) if m18 else 0
+        nxt = m18.group(2) if m18 else ""
+        afterhash = "" if not m18 or nxt == "" else "space" if nxt == " " else "tab" if nxt == "\t" else "other"
         L.append({"len": len(l), "trail": trail, "tabs": l.count("\t"), "blank": not l.strip(" \t"),
                   "cblank": bool(l.strip(" \t")) and not l.replace(">", "").strip(" \t"),
                   "code": code[i], "html": html[i], "heading": heading[i], "setext": setext[i], "fenceline": fenceline[i], "inlist": inlist[i], "plain": plain[i],
+                  "para": para[i], "pmarkup": pmarkup[i], "hashes": hashes, "afterhash": afterhash, "endshash": l.rstrip(" \t").endswith("#") and hashes < len(l.strip(" \t")),
                   "ws": [k + 1 for k, ch in enumerate(l) if ch in " \t"]})
+    for b in B:
+        if b["k"] in ("ul", "ol", "bq", "li"):
+            while b["endln"] > b["ln"] and b["endln"] <= n and not lines[b["endln"] - 1].replace(">", "").strip(" \t"):
+                b["endln"] -= 1
     B.sort(key=lambda b: (b["ln"], -b["endln"]))
-    return L, B
+    return L, B, I
 
 
 def _b(k, mp, **kw):
-    d = {"k": k, "ln": mp[0] + 1, "endln": mp[1], "level": 0, "style": "", "info": "", "marker": "", "depth": 0, "indent": 0, "gap": 0, "text": "", "lastch": "", "markup": False}
+    d = {"k": k, "ln": mp[0] + 1, "endln": mp[1], "level": 0, "style": "", "info": "", "marker": "", "depth": 0, "indent": 0, "gap": 0, "text": "", "lastch": "", "markup": False,
+         "closed": False, "nested": False, "first": False, "mixed": False}
     d.update(kw)
     return d
 
